@@ -96,7 +96,7 @@ def check(run, repo, tier):
                 [(None, k.arg, k.value) for k in n.keywords]:
               for bad in ft.tainted_names_in(a):
                 if ft.is_set(bad) and not ft.is_seq(bad) and bad is a and \
-                    not any(_consumes_order(t, pos, kwname) for t in tg):
+                    not any(_consumes_order(t, pos, kwname, w, cg) for t in tg):
                   continue    # a set handed over as a set (membership / accumulation only)
                 key = (fi.qualname, "%s(... %s ...)" % (short(n.func, 50), short(bad, 50)))
                 run.ob(R2, fi.qualname, key[1], "an unordered value reaches a call that emits "
@@ -120,8 +120,9 @@ def _has_unordered(ft, e):
   return False
 
 
-def _consumes_order(fi, pos, kwname):
-  """Does callee fi iterate (order-sensitively) the parameter bound to this argument?"""
+def _consumes_order(fi, pos, kwname, w=None, cg=None, depth=3):
+  """Does callee fi iterate (order-sensitively) the parameter bound to this argument? A parameter
+  handed on to another repository function is followed into it (a few levels)."""
   ps = fi.params()
   if fi.cls is not None and ps[:1] == ["self"]:
     ps = ps[1:]
@@ -148,6 +149,13 @@ def _consumes_order(fi, pos, kwname):
           if isinstance(n.func, ast.Attribute) and n.func.attr in ("update", "add", "discard",
                                                                     "difference_update"):
             continue
+          if w is not None and cg is not None and depth > 0 and not n.keywords and \
+              not any(isinstance(a, ast.Starred) for a in n.args):
+            tg2 = cg.resolve(w.fn_of(fi), n)
+            poss = [i for i, a in enumerate(n.args) if isinstance(a, ast.Name) and a.id == p]
+            if tg2 and all(not _consumes_order(t2, i, None, w, cg, depth - 1)
+                           for t2 in tg2 for i in poss):
+              continue
           return True
   return False
 
